@@ -162,7 +162,7 @@ fn check_l2(c: &ArgvCase, cx: &mut Cx) -> Res {
 }
 
 // ---------------------------------------------------------------------------------------
-const MODES: [&str; 8] = ["exit1", "notrepo", "head", "empty", "garbage", "nonnumeric", "huge", "signal"];
+const MODES: [&str; 10] = ["exit1", "silent", "multiline", "notrepo", "head", "empty", "garbage", "nonnumeric", "huge", "signal"];
 #[derive(Debug, Clone, Hash, Serialize, Deserialize)]
 pub struct FaultCase {
     pub ops: Vec<Op>,
@@ -365,7 +365,7 @@ pub fn property() -> Property {
     }, check_table);
     Property {
         id: "C13",
-        rule: "cases = (sub-command, up to 6 flags from the real flag set with adversarial values: non-ASCII text at byte offsets that split characters, huge/negative numbers, broken and hostile templates incl. every custom function, malformed RON/JSON/rule sets; positional version strings; stdin: valid, truncated, mutated and garbage objects). argv-fuzz (in-process): no panic. argv-fuzz-binary: exit status 0 or 1, failure => empty stdout and non-empty stderr, library and binary agree, -v / RUST_LOG=trace leave stdout byte-identical. git-faults: for repositories from generated op sequences, every git invocation zerv makes (learned with a counting PATH shim) fails in turn in 8 ways (exit 1, 'not a git repository', ambiguous HEAD, empty output, invalid UTF-8 garbage, non-numeric, huge number, killed by signal) for version and flow; plus 8 special states (git missing, no commits, not a repository ...). Non-trivial = the case gets past clap's argument parsing / every fault case; distinct = distinct cases.",
+        rule: "cases = (sub-command, up to 6 flags from the real flag set with adversarial values: non-ASCII text at byte offsets that split characters, huge/negative numbers, broken and hostile templates incl. every custom function, malformed RON/JSON/rule sets; positional version strings; stdin: valid, truncated, mutated and garbage objects). argv-fuzz (in-process): no panic. argv-fuzz-binary: exit status 0 or 1, failure => empty stdout and non-empty stderr, library and binary agree, -v / RUST_LOG=trace leave stdout byte-identical. git-faults: for repositories from generated op sequences, every git invocation zerv makes (learned with a counting PATH shim) fails in turn in 10 ways (exit 1 with a message, silent exit 1, multi-line stderr, 'not a git repository', ambiguous HEAD, empty output, invalid UTF-8 garbage, non-numeric, huge number, killed by signal) for version and flow; plus 8 special states (git missing, no commits, not a repository ...). Non-trivial = the case gets past clap's argument parsing / every fault case; distinct = distinct cases.",
         assumptions: vec![
             "--llm-help is excluded (it spawns a pager)",
             "stderr is unconstrained on success (zerv logs swallowed git errors there at ERROR level)",
